@@ -54,7 +54,7 @@ func PartStoreJSON(name, dir string) (string, error) {
 	case "outbox-fs":
 		return fmt.Sprintf(`{"type":"OutboxPartStore","db":%s,"outboxId":"pob","innerPartStore":%s}`, dbRef(), fsStore(p("parts"))), nil
 	case "cache-fs":
-		return fmt.Sprintf(`{"type":"CachePartStore","maxPartSizeBytes":1048576,"cacheReadErrorsAsMiss":false,"cache":{"type":"GenericCache","cachePersistor":{"type":"InMemoryPersistor"},"cacheEvictionPolicy":{"type":"LFUEvictionPolicy","evictionChecker":{"type":"FixedKeyLimitEvictionChecker","maxKeyLimit":3}}},"innerPartStore":%s}`, fsStore(p("parts"))), nil
+		return fmt.Sprintf(`{"type":"CachePartStore","maxPartSizeBytes":1048576,"cacheReadErrorsAsMiss":false,"cache":{"type":"GenericCache","cachePersistor":{"type":"InMemoryPersistor"},"cacheEvictionPolicy":{"type":"LFUEvictionPolicy","evictionChecker":{"type":"FixedKeyLimit","maxKeyLimit":3}}},"innerPartStore":%s}`, fsStore(p("parts"))), nil
 	case "deep":
 		return fmt.Sprintf(`{"type":"OutboxPartStore","db":%s,"outboxId":"pob","innerPartStore":{"type":"TinkEncryptionPartStoreMiddleware","kmsType":"local","password":"verif-password","innerPartStore":{"type":"CompressionPartStoreMiddleware","compressionAlgorithm":"zstd","innerPartStore":%s}}}`, dbRef(), fsStore(p("parts"))), nil
 	}
